@@ -13,6 +13,8 @@ structure Router where
   cors : Cors := {}
   urlDomain : Bytes := []
   recover : Bool := false
+  /-- what the recovery function does with the `ResponseWriter` it is handed -/
+  recActs : List Act := defaultRecActs
   deriving Repr, Inhabited
 
 /-- Options of `NewRouter` that the model knows. `cors = none` ↔ no `WithCORS` option. -/
@@ -23,6 +25,7 @@ structure RouterCfg where
   cors : Cors := {}
   urlDomain : Bytes := []
   recover : Bool := false
+  recActs : List Act := defaultRecActs
   /-- the `notFound` argument of `NewRouter` (`Group.New` passes the group's own) -/
   notFoundBase : Base := .notFound
   deriving Repr, Inhabited
@@ -38,7 +41,7 @@ def Router.new (cfg : RouterCfg) : Option Router :=
   if cfg.name = [] then none
   else some {
     tree := Tree.new cfg.name cfg.ic { base := cfg.notFoundBase } (if cfg.trace then some { base := .trace } else none),
-    cors := cfg.cors, urlDomain := sanitizeDomain cfg.urlDomain, recover := cfg.recover }
+    cors := cfg.cors, urlDomain := sanitizeDomain cfg.urlDomain, recover := cfg.recover, recActs := cfg.recActs }
 
 /-- `Router.Handle`: `tree.Add(pattern, h, slices.Concat(m, r.ms), methods...)`. -/
 def Router.handle (r : Router) (pattern : Bytes) (h : Nat) (m : List Nat) (methods : List Bytes) :
@@ -104,6 +107,7 @@ structure Call where
   headWrap : Bool            -- `w` is a `headResponse`
   path : Bytes               -- `req.URL.Path` as the handler sees it
   recover : Bool := false    -- a deferred `recover()` surrounds the call
+  recActs : List Act := defaultRecActs   -- what the recovery function writes
   deriving Repr
 
 inductive ServeRes where
@@ -127,7 +131,7 @@ def Router.serveContext (env : Env) (r : Router) (req : Req) (ps : Params) : Ser
       else []
     .call { handler := f.handler, node := f.node, ok := f.ok, params := f.params,
             routerName := r.tree.name, respHeaders := wh,
-            headWrap := f.ok ∧ req.method = mHEAD, path := req.path, recover := r.recover }
+            headWrap := f.ok ∧ req.method = mHEAD, path := req.path, recover := r.recover, recActs := r.recActs }
 
 /-! ## Façades: a `Prefix`/`Resource` is a pattern and a middleware list -/
 
@@ -307,6 +311,7 @@ structure Group where
   ms : List Nat := []
   notFound : Handler := { base := .groupNotFound }
   recover : Bool := false
+  recActs : List Act := defaultRecActs
   deriving Repr, Inhabited
 
 def Group.names (g : Group) (rt : RTab) : List Bytes :=
@@ -341,7 +346,7 @@ where
   /-- the loop over `g.routers`; `path` is `r.URL.Path` as the matchers so far left it -/
   go : List (Nat × Matcher) → Bytes → ServeRes
     | [], path => .call { handler := g.notFound, node := none, ok := false, params := [], routerName := [],
-                          respHeaders := [], headWrap := false, path := path, recover := g.recover }
+                          respHeaders := [], headWrap := false, path := path, recover := g.recover, recActs := g.recActs }
     | (rid, m) :: rest, path =>
       match m.run env hostsTab req path [] with
       | .fault s => .fault s false                  -- a fault inside a matcher is outside every recover
